@@ -291,7 +291,41 @@ def replay_image(ctx, f, meta):
         raise HarnessError("fstorchk getmeta failed (%s): %s" % (rc, (err or "")[-1500:]))
     r = json.loads(out.strip().splitlines()[-1])
     mode = meta.get("mode", "ro")
+    if mode == "ro-unchanged":
+        return bool(r.get("ro_changed"))
     if mode == "restore":
         after = {(k, n): c for k, n, c in r["after"]}
         return r["rw"] > 0 and (after.get(("cur", 0)) != r["rw"] or any(k == "p" for k, _ in after))
     return r[mode] not in meta.get("acceptable", [])
+
+
+def fstor_ro_part(ctx):
+    """C18: a read-only open of the real file storage on any post-crash directory FileStore.tla reaches (pending-rename
+    files, damaged or dangling pointers) answers GetMeta without creating, modifying, renaming or deleting a stored file."""
+    exe = build("fstorchk")
+    dot = ctx.path("filestore.dot")
+    tlc_mc(ctx, "FileStore.tla", "FileStore_quick.cfg" if ctx.quick else "FileStore_thorough.cfg", timeout=2400, workers=1,
+           extra=["-dump", "dot", dot], label="FileStore.tla: the post-crash directories a read-only open may meet")
+    imgs = images(dot)
+    keys = sorted(imgs)
+    inp = ctx.path("fs-images.ndjson")
+    with open(inp, "w") as f:
+        for im in keys:
+            f.write(json.dumps({"files": [[k, n, c] for k, n, c in im]}) + "\n")
+    rc, out, err = run([exe, "-mode", "getmeta", "-in", inp], timeout=1200, env=GOENV)
+    if rc != 0:
+        raise HarnessError("fstorchk getmeta failed (%s): %s" % (rc, (err or "")[-1500:]))
+    lines = [json.loads(x) for x in out.strip().splitlines()]
+    if len(lines) != len(keys):
+        raise HarnessError("fstorchk answered %d of %d images" % (len(lines), len(keys)))
+    bad = [(im, r) for im, r in zip(keys, lines) if r.get("ro_changed")]
+    for im, r in bad[:3]:
+        rp = ctx.path("fs-image-ro.ndjson")
+        with open(rp, "w") as f:
+            f.write(json.dumps({"files": [[k, n, c] for k, n, c in im]}) + "\n")
+        dst = save_replay(ctx, "filestore-readonly", [rp], {"image": im, "mode": "ro-unchanged", "changed": r["ro_changed"]})
+        report_violation(ctx, "c18:filestore:ro-open-modifies",
+                         "a read-only open of the file storage on the directory %s changed stored files: %s" % (list(im), r["ro_changed"]), dst)
+    ctx.extra["file_storage_read_only_opens"] = {"post_crash_directories": len(keys), "with_pending_rename_files": sum(1 for im in keys if any(k == "p" for k, _, _ in im)),
+                                                 "opens_that_changed_a_stored_file": len(bad)}
+    log("  FileStore (read-only): %d directories opened read-only, %d changed" % (len(keys), len(bad)))
